@@ -390,8 +390,7 @@ def r3_repeat(report, repo):
                      lambda v: not (v['timeout'] and v['is_repeat']))
 
 
-def r4_run_if(report, repo):
-  rule = 'C05-R4'
+def r4_run_if(report, repo, rule='C05-R4'):
   report.rule(rule, 'T-ORDER: _execute_phase_once: falsy / raising run_if '
               'returns before running_phase_context is entered and before a '
               'PhaseExecutorThread is constructed')
@@ -466,7 +465,7 @@ def r4_run_if(report, repo):
                      spec, follow_exc=follow_exc)
   report.expect_instances(rule, n_skip[0], 2, 'run_if skip/raise paths')
   # repeat-limit override
-  rule5 = 'C05-R5'
+  rule5 = 'C05-R5' if rule == 'C05-R4' else rule + 'b'
   hits = [n for n in walk_no_nested(f.node) if isinstance(n, ast.Assign) and
           any((dotted(t) or '').endswith('.hit_repeat_limit')
               for t in n.targets)]
@@ -793,3 +792,5 @@ def run(report, repo):
   report.guard(c01.r7_last_record, report, repo, rule='C05-R8')
   from sa.rules import c06  # pylint: disable=g-import-not-at-top
   report.guard(c06.r7_measurements_pass, report, repo, rule='C05-R9')
+  from sa.rules import extra4  # pylint: disable=g-import-not-at-top
+  report.guard(extra4.snapshot_per_invocation, report, repo, 'C05-R10')
